@@ -121,7 +121,8 @@ def vi : P String := do
   let v : Verdict := { tag := (if m.S ≤ 1 && m.A ≤ 1 then "trivial " else "") ++ (if useTol then "vi_tol" else "vi_dp") ++ (if warmUsed then " warm" else "")
                               ++ (if capped then " capped" else "") ++ (if illc then " illcond" else "") ++ " " ++ c.repName }
   -- L2b: model vs implementation
-  let v := v.diffIf (!nodiff && !(eqNum c out.variation iVar)) s!"{comp} variation model={ratStr out.variation} impl={ratStr iVar}"
+  -- the variation is a difference of two value vectors: in inexact mode its rounding error is relative to the values, not to itself
+  let v := v.diffIf (!nodiff && !(eqNum c out.variation iVar) && (c.exact || decide (sl < absR (out.variation - iVar)))) s!"{comp} variation model={ratStr out.variation} impl={ratStr iVar}"
   let v := v.diffIf (!nodiff && !(eqVec c m.S out.vf.values iV)) s!"{comp} values model={showVec out.vf.values} impl={showVec iV}"
   let v := v.diffIf (!nodiff && !(eqMat c m.S m.A out.q iQ)) s!"{comp} q"
   let wellc := c.exact || allLt m.S (fun s => rowWellCond m.A (out.q.get s) sl)
@@ -189,7 +190,7 @@ def pe : P String := do
   let comp := "PolicyEvaluation"
   let v : Verdict := { tag := (if m.S ≤ 1 && m.A ≤ 1 then "trivial " else "") ++ (if useTol then "pe_tol" else "pe_dp") ++ (if warmUsed then " warm" else "")
                               ++ (if capped then " capped" else "") ++ (if illc then " illcond" else "") ++ " " ++ c.repName }
-  let v := v.diffIf (!nodiff && !(eqNum c out.variation iVar)) s!"{comp} variation model={ratStr out.variation} impl={ratStr iVar}"
+  let v := v.diffIf (!nodiff && !(eqNum c out.variation iVar) && (c.exact || decide (sl < absR (out.variation - iVar)))) s!"{comp} variation model={ratStr out.variation} impl={ratStr iVar}"
   let v := v.diffIf (!nodiff && !(eqVec c m.S out.v iV)) s!"{comp} values model={showVec out.v} impl={showVec iV}"
   let v := v.diffIf (!nodiff && !(eqMat c m.S m.A out.q iQ)) s!"{comp} q"
   let stepped := h > 0
@@ -198,6 +199,19 @@ def pe : P String := do
       let v := v.failIf (!(eqVec c m.S ev iV)) s!"{comp} not_h_step_policy_value want={showVec ev} got={showVec iV}"
       v.failIf (iVar != 0) s!"{comp} variation_not_zero {ratStr iVar}"
     else v
+  -- tolerance zero, accepted warm start: exactly h sweeps from the supplied values (pe_tol0_warm); this is the call PolicyIteration makes
+  let v := match warm with
+    | some w => if !useTol && warmUsed && !capped then
+        let ev := evalIterFrom m pol w h
+        v.failIf (!(eqVec c m.S ev iV)) s!"{comp} warm_start_not_iterated want={showVec ev} got={showVec iV}"
+      else v
+    | none => v
+  -- a start of the wrong size is ignored: the answer is the one from zeros
+  let v := match warm with
+    | some w => if !useTol && !warmUsed && !capped && w.size != 0 then
+        v.failIf (!(eqVec c m.S (evalIter m pol h) iV)) s!"{comp} wrong_size_start_not_ignored"
+      else v
+    | none => v
   -- V(s) = Σ_a π(s,a) Q(s,a) on the implementation's own Q
   let v := if stepped then
       v.failIf (!(allLt m.S (fun s => eqNum c (iV.get s) (dotTo m.A (iQ.get s) (pol.get s))))) s!"{comp} v_not_pi_dot_q"
@@ -252,10 +266,14 @@ def pi : P String := do
   -- hypothesis of policyIteration_chain that is checkable on the output: the greedy matrix of the returned Q is a distribution
   let coh := checkValidPi m (greedyPolicy m.S m.A iQ).get
   let v := { v with tag := v.tag ++ (if coh then "" else " incoherent_greedy") }
-  let v := if useTol && coh && mustConverge m h tol then
-      -- policyIteration_chain + greedyRow_near_max: τ = 2·tieSlack B, B = largest |Q| entry
+  let v := if useTol && mustConverge m h tol then
+      -- policyIteration_chain + greedyRow_near_max: τ = 2·tieSlack B, B = largest |Q| entry.  The clause is the property's whatever the
+      -- greedy matrix looks like; when the *as-found* tie scan (the model's) does not yield a distribution on the returned Q the failure
+      -- is explained by that scan and carries its own kind (finding C01-3), otherwise it is unexplained.
       let eps := tol + 2 * tieSlack (qmaxOf m iQ)
-      v.failIf (!(checkResidual m iV.get (m.γ * eps + sl))) s!"{comp} residual_exceeds_bound res={ratStr (residual m iV.get)} bound={ratStr (m.γ * eps)}"
+      v.failIf (!(checkResidual m iV.get (m.γ * eps + sl)))
+        (if coh then s!"{comp} residual_exceeds_bound res={ratStr (residual m iV.get)} bound={ratStr (m.γ * eps)}"
+         else s!"{comp} greedy_row_not_distribution res={ratStr (residual m iV.get)} bound={ratStr (m.γ * eps)}")
     else v
   if !tr.ok then return (v.diffIf true s!"{comp} model_out_of_fuel").render else
   let v := v.diffIf (!tr.capped && tr.wellCond && !(eqMat c m.S m.A tr.st.qfun iQ)) s!"{comp} q rounds={tr.st.rounds}"
@@ -296,11 +314,15 @@ def agree : P String := do
   let k := 1 / (1 - m.γ)
   let comp := "Agreement"
   let v : Verdict := { tag := (if m.S ≤ 1 && m.A ≤ 1 then "trivial " else "") ++ "agree " ++ c.repName }
-  let v := v.failIf (!(checkClose m.S vVI.get vPI.get ((bVI + bPI) * k))) s!"{comp} vi_pi_values"
+  -- a disagreement of PolicyIteration that the as-found tie scan explains (its greedy matrix on the returned Q is not a distribution,
+  -- finding C01-3) carries its own kind, so that the finding cannot mask any other disagreement
+  let coh := checkValidPi m (greedyPolicy m.S m.A qPI).get
+  let sfx := if coh then "" else "_greedy_row_not_distribution"
   let v := v.failIf (!(checkClose m.S vVI.get vLP.get ((bVI + bLP) * k))) s!"{comp} vi_lp_values"
-  let v := v.failIf (!(checkClose m.S vPI.get vLP.get ((bPI + bLP) * k))) s!"{comp} pi_lp_values"
+  let v := v.failIf (!(checkClose m.S vVI.get vPI.get ((bVI + bPI) * k))) (if coh then s!"{comp} vi_pi_values" else s!"{comp} pi_values{sfx}")
+  let v := v.failIf (!(checkClose m.S vPI.get vLP.get ((bPI + bLP) * k))) (if coh then s!"{comp} pi_lp_values" else s!"{comp} pi_values{sfx}")
   -- the VI action is near-greedy for the other solvers' Q (ties allowed)
-  let v := v.failIf (!(checkGreedy m.S m.A qPI.get (natAt aVI) (2 * (tolVI + bVI + bPI) * k))) s!"{comp} vi_action_not_greedy_for_pi"
+  let v := v.failIf (!(checkGreedy m.S m.A qPI.get (natAt aVI) (2 * (tolVI + bVI + bPI) * k))) (if coh then s!"{comp} vi_action_not_greedy_for_pi" else s!"{comp} pi_values{sfx}")
   let v := v.failIf (!(checkGreedy m.S m.A qLP.get (natAt aVI) (2 * (tolVI + bVI + bLP) * k))) s!"{comp} vi_action_not_greedy_for_lp"
   return v.render
 
@@ -318,8 +340,74 @@ def xrep : P String := do
   let v := v.failIf bad s!"{comp} {what}_differs"
   return v.render
 
+/-- conditioning of a greedy row for the tie tests themselves: no pair sits within a hair of either threshold of `checkEqualGeneral` -/
+def tieWellCond (A : Nat) (q : Nat → Rat) : Bool :=
+  allLt A (fun a => allLt A (fun b =>
+    let d := absR (q a - q b)
+    let rel := minR (absR (q a)) (absR (q b)) * AITB.Gen.equalToleranceGeneral
+    decide (d = 0) ||
+      (decide (AITB.Gen.equalToleranceSmall / 1000000 < absR (d - AITB.Gen.equalToleranceSmall)) &&
+       decide (rel / 1000 < absR (d - rel) || d ≤ AITB.Gen.equalToleranceSmall / 2))))
+
+/-- `gp S A Q[S][A] | M[S][A]`: `MDP::QGreedyPolicy(Q).getPolicy()` -/
+def gp : P String := do
+  let S ← P.nat; let A ← P.nat; let q ← matP S A; P.bar
+  let iM ← matP S A; P.eof
+  let comp := "QGreedyPolicy"
+  let mM := greedyPolicy S A q
+  let wc := allLt S (fun s => tieWellCond A (q.get s))
+  let one : Rat := 1
+  let v : Verdict := { tag := (if A ≤ 1 then "trivial " else "") ++ "gp" ++ (if wc then "" else " illcond") }
+  let v := v.diffIf (wc && !(allLt S (fun s => allLt A (fun a => closeQ (1 / 1000000000) (mM.get s a) (iM.get s a))))) s!"{comp} table"
+  -- property-side clauses on the implementation's own table: what PolicyEvaluation needs from `policy.getPolicy()`
+  let rowSum := fun s => sumTo A (iM.get s)
+  let v := v.failIf (!(allLt S (fun s => allLt A (fun a => decide (0 ≤ iM.get s a))))) s!"{comp} negative_entry"
+  let v := v.failIf (!(allLt S (fun s => decide (rowSum s ≤ one + 1 / 1000000000)))) s!"{comp} row_sum_above_one"
+  let v := v.failIf (!(allLt S (fun s => decide (one - 1 / 1000000000 ≤ rowSum s)))) s!"{comp} row_sum_below_one"
+  let v := v.failIf (!(allLt S (fun s =>
+      let B := maxTo (A - 1) (fun a => absR (q.get s a))
+      let mx := maxTo (A - 1) (q.get s)
+      allLt A (fun a => decide (iM.get s a = 0) || decide (mx - 2 * tieSlack B ≤ q.get s a))))) s!"{comp} weight_far_below_max"
+  return v.render
+
+/-- `bop S A Q[S][A] | n V[n] nActs acts[nActs]`: `bellmanOperator(Q)` -/
+def bop : P String := do
+  let S ← P.nat; let A ← P.nat; let q ← matP S A; P.bar
+  let n ← P.nat; let iV ← vecP n; let iActsL ← P.nats; let iActs := iActsL.toArray; P.eof
+  let comp := "bellmanOperator"
+  let mo := bellmanOp S A q
+  let v : Verdict := { tag := (if A ≤ 1 then "trivial " else "") ++ "bop" }
+  let v := v.diffIf (mo.values != iV || mo.actions != iActs) s!"{comp} model={showVec mo.values} {mo.actions} impl={showVec iV} {iActs}"
+  -- bellmanOp_spec on the implementation's own output: S entries each, V(s) = Q(s, a_s) = row maximum, a_s the first maximiser
+  let v := v.failIf (n != S || iActs.size != S) s!"{comp} wrong_size"
+  let v := v.failIf (!(checkGreedy S A q.get (natAt iActs) 0)) s!"{comp} action_not_greedy {iActs}"
+  let v := v.failIf (!(allLt S (fun s => iV.get s == q.get s (natAt iActs s)))) s!"{comp} v_not_max_q"
+  let v := v.failIf (!(allLt S (fun s => allLt (natAt iActs s) (fun a => decide (q.get s a < q.get s (natAt iActs s)))))) s!"{comp} not_first_maximum"
+  return v.render
+
+/-- `settol <class> threw tolAfter tolBefore`: a negative tolerance is rejected and leaves the object unchanged -/
+def settol : P String := do
+  let cls ← P.tok; let threw ← P.bool; let after ← P.q; let before ← P.q; P.eof
+  let v : Verdict := { tag := "settol" }
+  let v := v.failIf (!threw) s!"{cls} negative_tolerance_accepted"
+  let v := v.failIf (after != before) s!"{cls} tolerance_changed_by_rejected_call"
+  return v.render
+
+def componentOf (op : String) : String :=
+  match op with
+  | "vi" => "ValueIteration" | "pe" => "PolicyEvaluation" | "pi" => "PolicyIteration" | "lp" => "LinearProgramming"
+  | "gp" => "QGreedyPolicy" | "bop" => "bellmanOperator" | "agree" => "Agreement" | _ => "Representations"
+
 def handle (toks : List String) : String :=
+  -- a NaN or an infinity anywhere in an output is never "the optimal value function"
+  let outs := (toks.dropWhile (· != "|"))
+  if outs.any (fun t => t == "nan" || t == "inf" || t == "-inf") then s!"fail {componentOf (toks.headD "")} not_finite" else
+  if outs == ["|", "timeout"] then s!"fail {componentOf (toks.headD "")} does_not_terminate" else
   let r := match toks with
+    | "gp" :: rest => P.run gp rest
+    | "bop" :: rest => P.run bop rest
+    | "settol" :: rest => P.run settol rest
+    | "getter" :: _ :: cls :: _ => some s!"fail {cls} getter_mismatch"
     | "vi" :: rest => P.run vi rest
     | "pe" :: rest => P.run pe rest
     | "pi" :: rest => P.run pi rest
